@@ -564,6 +564,10 @@ pub fn classify_sql(kind: &str, msg: &str, facts: &SqlFacts) -> String {
     if quote_in_string_default && (near.is_some() || msg.contains("unrecognized token")) {
         return "sql:quote-in-string-default".to_string();
     }
+    if msg.contains("NATURAL join may not have") || msg.contains("a JOIN clause is required before") {
+        // an entity called natural / using ... is read as a join keyword
+        return "sql:reserved-word-as-table-alias".to_string();
+    }
     // last resort before an unclassified signature: the table aliases the statement really uses (read from the SQL
     // text the engine quotes in its message). The entity name / alias is written unquoted after the table name.
     let engine_refused = msg.contains("syntax error") || msg.contains("unrecognized token") || msg.contains("no such column") || msg.contains("unknown join type");
